@@ -203,7 +203,7 @@ theorem tk_stepInWorker {t : Nat} {p : Pool} (tk : PTask) (h : TK t p) : EndFile
   · exact tk_workerCancelled tk (h.step (estep_modTask p _ _))
   · split
     · split
-      · exact h.ok.step (estep_workerNext p t)
+      · exact h.ok.step (estep_workerNext p t tk)
       · exact tk_afterWorker _ h
     · exact tk_afterWorker _ h
     · exact h.ok
